@@ -35,8 +35,8 @@ def run_corpus(ctx, binary, prop):
     return [l for l in so.split("\n") if l]
 
 
-def schema_of(binary):
-    rc, so, se = vf.sh([binary, "-mode", "schema"], timeout=120)
+def schema_of(binary, mode="schema"):
+    rc, so, se = vf.sh([binary, "-mode", mode], timeout=120)
     if rc != 0:
         raise RuntimeError("schema dump failed: " + se[-2000:])
     return so.strip()
@@ -58,6 +58,10 @@ def classify(r):
         tags.add("typename")
     if q.startswith("mutation"):
         tags.add("mutation")
+    if q.startswith("subscription"):
+        tags.add("subscription-event")
+        if r.get("event"):
+            tags.add("subscription-later-event")
     for i in r["log"]:
         if i["kind"] in ("error", "errval"):
             tags.add("resolver-error" if i["hook"] == "resolver" else "directive-error")
@@ -81,6 +85,27 @@ def classify(r):
         if p["data"] is None:
             tags.add("null-to-root")
     return tags
+
+
+def subscribe_failed(r):
+    """None unless `r` is a subscription whose stream resolver failed (error / panic: no stream was created);
+    then "" when the response is the request error the spec prescribes, else what is wrong with it"""
+    if not r["query"].startswith("subscription") or any(i["kind"] in ("stream", "value") and "/" not in i["path"] for i in r["log"]):
+        return None
+    roots = [i for i in r["log"] if "/" not in i["path"] and i["hook"] == "resolver"]
+    if len(roots) != 1 or roots[0]["kind"] not in ("error", "panic"):
+        return None
+    P = r["payloads"]
+    want = ("recovered: " if roots[0]["kind"] == "panic" else "") + roots[0]["msg"]
+    if len(P) != 1:
+        return "%d payloads" % len(P)
+    if P[0]["data"] is not None:
+        return "data is not null"
+    if [(e["path"], e["message"]) for e in P[0]["errors"]] != [(roots[0]["path"], want)]:
+        return "errors are not exactly the stream resolver's failure at its path"
+    if r["recovers"] != (1 if roots[0]["kind"] == "panic" else 0):
+        return "recover hook count"
+    return ""
 
 
 def run(ctx):
@@ -111,6 +136,12 @@ def run(ctx):
     except RuntimeError as e:
         built["mixed:base"] = e
     cfgs = list(cfgs) + ["mixed:base"]
+    # subscriptions: every delivered event is one execution of the root field's selection set on the event's
+    # value (spec 6.2.3.2 ExecuteSubscriptionEvent); the runner splits a subscription into its events
+    sb = gensrv.build_matrix(ctx, "execsub", ["base"] if ctx.tier == "quick" else ["base", "follow_funcsyn_wl2"])
+    for k, v in sb.items():
+        built["execsub:" + k] = v
+    cfgs = list(cfgs) + ["execsub:" + k for k in sb]
     dist = Counter()
     nontriv = set()
     total = 0
@@ -126,8 +157,12 @@ def run(ctx):
                            "shape": {"config": cfg, "build": "fail"},
                            "replay": "api.Generate + go build of probe schema go/probes/exec with config %s" % cfg})
             continue
-        schema = schema_of(b)
-        lines = run_corpus(ctx, b, "C01") + run_config(ctx, b, n, ctx.seed, "c01")
+        if cfg.startswith("execsub:"):
+            schema = schema_of(b, "subschema")
+            lines = run_config(ctx, b, max(200, n // 3), ctx.seed, "sub")
+        else:
+            schema = schema_of(b)
+            lines = run_corpus(ctx, b, "C01") + run_config(ctx, b, n, ctx.seed, "c01")
         model = ctx.driver("c01", [schema] + lines)
         ok = 0
         for l, m in zip(lines, model):
@@ -144,6 +179,15 @@ def run(ctx):
                 dist[t] += 1
             if tags - {"typename"}:
                 nontriv.add(r["query"] + json.dumps(r.get("variables"), sort_keys=True))
+            sf = subscribe_failed(r)
+            if sf is not None:
+                # CreateSourceEventStream failed (spec 6.2.3.1): a request error - no data, the one error, no event
+                dist["subscribe-failed"] += 1
+                if sf:
+                    divs.append((cfg, r, m, ["subscribe-failure:" + sf]))
+                else:
+                    ok += 1
+                continue
             if not m.startswith("{"):
                 divs.append((cfg, r, m, ["model:" + m[:40]]))
                 continue
@@ -190,7 +234,7 @@ def run(ctx):
                "impl": r["payloads"], "model": mj, "shape": shape,
                "replay": "echo '<case json>' | <generated server> -mode run   (case = query+variables+plan of this file)"}
         # a divergence in data/errors/invocations against a model proved equal to the Spec is a concrete failing input
-        failing = bool(spec_bad) or any(w in ("data", "errors", "invocations", "recovers", "crash", "hung") or w.startswith("config-") for w in why)
+        failing = bool(spec_bad) or any(w in ("data", "errors", "invocations", "recovers", "crash", "hung") or w.startswith("config-") or w.startswith("subscribe-failure") for w in why)
         ctx.violation(rep, no_failing_input=not failing)
     if not proved and not ctx.violations:
         ctx.violation({"kind": "proof", "failing": ctx.proof_failure}, no_failing_input=True)
